@@ -477,7 +477,12 @@ fn grey_point(stds: &[StdEntry], c: &GreyCase, obs: &mut Obs) -> PropResult {
     obs.class(pv::runner::intern(&format!("standard {}", s.name)));
     let ty = if c.f32_ { "f32" } else { "f64" };
     let tf = if s.linear { rf::Tf::Linear } else { ref_standard(s.refstd).tf };
+    // Okhsl next to white is not invertible for colours that reach Oklab through M1 (open finding of C01 / C15)
+    let white_tip = rf::decode(tf, g).cbrt() >= 0.999 && g < 1.0;
     for (n, v, tol) in &o.measures {
+        if white_tip && n.starts_with("Okhsl") && !(v <= tol) {
+            pv::fail_keyed!("C14:okhsl-white-tip", "grey {} in {} ({}): {} = {:e}: within 1e-3 of white Okhsl is not invertible", g, s.name, ty, n, v);
+        }
         if c.f32_ {
             obs.err(pv::runner::intern(&format!("f32 {}", n)), *v);
         } else {
@@ -505,6 +510,9 @@ fn grey_point(stds: &[StdEntry], c: &GreyCase, obs: &mut Obs) -> PropResult {
         } else {
             obs.err(pv::runner::intern(&format!("back from {}: component spread", n)), spread);
             obs.err(pv::runner::intern(&format!("back from {}: distance to the grey level", n)), off);
+        }
+        if white_tip && *n == "Okhsl" && !(spread <= tol_spread && off <= tol_off) {
+            pv::fail_keyed!("C14:okhsl-white-tip", "grey {} in {} ({}) -> Okhsl -> RGB {:?}: within 1e-3 of white Okhsl is not invertible", g, s.name, ty, rgb);
         }
         ensure!(spread <= tol_spread, "grey {} in {} ({}) -> {} -> RGB {:?}: components differ by {:e}", g, s.name, ty, n, rgb, spread);
         ensure!(off <= tol_off, "grey {} in {} ({}) -> {} -> RGB {:?}: not the grey we started from", g, s.name, ty, n, rgb);
